@@ -1294,6 +1294,7 @@ func (r *Run) checkSeenSets(P string) {
 // purpose is declared, and, for every declared purpose, the purpose has a table
 // and the type is in it.
 func (r *Run) checkKeyTypePurpose(P string) {
+	r.checkKeyTypeTables(P)
 	f := r.fn(P, pkgPatchVal, "validateKeyTypePurpose")
 	if f == nil {
 		return
@@ -1428,4 +1429,118 @@ func (r *Run) checkComposerPure(P string) {
 	}
 	r.R.Check(okFlow && okRet && uses == 1, P+".pure.flow", "E9/E13: apply steps operate on deepCopy(doc) or on the previous step's result only; the parameter is used exactly once (to be copied)", core.FuncName(ap), r.where(ap),
 		"patches applied to the parameter itself modify the input document", "deepCopy(doc) → applyPatch* → result", strings.Join(det, "; ")+fmt.Sprintf(" (uses of the parameter: %d)", uses))
+}
+
+// checkKeyTypeTables: the tables the purpose predicate consults are map literals that nothing writes to, hands to a
+// function or aliases (two purposes sharing a table by design is expressed in the purpose table's literal); the
+// purpose table maps each verification purpose to the verification table and keyAgreement to the agreement table,
+// and a key-agreement-only type is not in the verification table.
+func (r *Run) checkKeyTypeTables(P string) {
+	sp := r.P.SSAPkg(pkgPatchVal)
+	if sp == nil {
+		return
+	}
+	names := []string{"allowedKeyTypesGeneral", "allowedKeyTypesVerification", "allowedKeyTypesAgreement", "allowedKeyTypes"}
+	why := "a table that is extended after its literal (or through an alias, e.g. a merge helper that writes into its argument) admits key types for purposes they are not permitted for"
+	var bad []string
+	n := 0
+	for _, name := range names {
+		g, _ := sp.Members[name].(*ssa.Global)
+		if g == nil {
+			r.R.Unk(P+".keytype.tables", "anchor", "patchvalidator."+name, "-", why, "table variable not found")
+			return
+		}
+		if _, lit := r.mapLiteralKeys(pkgPatchVal, name); !lit {
+			bad = append(bad, name+" is not initialised by a map literal")
+		}
+		for fn := range r.P.AllFuncs {
+			if fn.Pkg != sp && (fn.Parent() == nil || fn.Parent().Pkg != sp) {
+				continue
+			}
+			for _, b := range fn.Blocks {
+				for _, ins := range b.Instrs {
+					switch x := ins.(type) {
+					case *ssa.Store:
+						if x.Addr == ssa.Value(g) && fn.Name() != "init" {
+							bad = append(bad, name+" is assigned in "+core.FuncName(fn))
+						}
+					case *ssa.UnOp:
+						if x.Op != token.MUL || x.X != ssa.Value(g) || x.Referrers() == nil {
+							continue
+						}
+						n++
+						var chk func(v ssa.Value, refs []ssa.Instruction, depth int)
+						chk = func(v ssa.Value, refs []ssa.Instruction, depth int) {
+							for _, rf := range refs {
+								switch y := rf.(type) {
+								case *ssa.Lookup:
+									if y.X != v {
+										continue
+									}
+									// an inner table fetched from the purpose table is read-only as well
+									if _, isMap := y.Type().Underlying().(*types.Map); isMap && depth < 2 && y.Referrers() != nil {
+										chk(y, *y.Referrers(), depth+1)
+									}
+									if tup, isTup := y.Type().(*types.Tuple); isTup && depth < 2 && y.Referrers() != nil {
+										for _, er := range *y.Referrers() {
+											if ex, isEx := er.(*ssa.Extract); isEx && ex.Index == 0 && ex.Referrers() != nil {
+												if _, isMap := tup.At(0).Type().Underlying().(*types.Map); isMap {
+													chk(ex, *ex.Referrers(), depth+1)
+												}
+											}
+										}
+									}
+								case *ssa.Range, *ssa.DebugRef:
+								case *ssa.MapUpdate:
+									if y.Map == v {
+										bad = append(bad, name+" is written in "+core.FuncName(fn)+" at "+r.P.Pos(y.Pos()))
+									} else if fn.Name() != "init" {
+										bad = append(bad, name+" is stored into another map in "+core.FuncName(fn))
+									}
+								case *ssa.Call:
+									if bi, isB := y.Common().Value.(*ssa.Builtin); isB && bi.Name() == "len" {
+										continue
+									}
+									bad = append(bad, name+" is handed to "+calleeKeyOf(r, y.Common())+" in "+core.FuncName(fn)+" at "+r.P.Pos(y.Pos()))
+								default:
+									bad = append(bad, fmt.Sprintf("%s is used by %T in %s at %s", name, rf, core.FuncName(fn), r.P.Pos(rf.Pos())))
+								}
+							}
+						}
+						chk(x, *x.Referrers(), 0)
+					}
+				}
+			}
+		}
+	}
+	ver, _ := r.mapLiteralKeys(pkgPatchVal, "allowedKeyTypesVerification")
+	agr, _ := r.mapLiteralKeys(pkgPatchVal, "allowedKeyTypesAgreement")
+	pur, _ := r.mapLiteralKeys(pkgPatchVal, "allowedKeyTypes")
+	for k := range ver {
+		if strings.Contains(k, "KeyAgreementKey") {
+			bad = append(bad, "the verification table admits the key-agreement type "+k)
+		}
+	}
+	for k := range agr {
+		if strings.HasPrefix(k, "Ed25519VerificationKey") {
+			bad = append(bad, "the agreement table admits the signature-only type "+k)
+		}
+	}
+	for purpose, tbl := range pur {
+		want := "allowedKeyTypesVerification"
+		if purpose == "keyAgreement" {
+			want = "allowedKeyTypesAgreement"
+		}
+		if tbl != want {
+			bad = append(bad, fmt.Sprintf("purpose %s consults %s", purpose, tbl))
+		}
+	}
+	sort.Strings(bad)
+	r.R.Check(len(bad) == 0 && n >= 2 && len(pur) == 5, P+".keytype.tables", "who-may-write + E7 table: the key type tables are map literals, only read (lookup / range / len) after their literal, and each purpose consults its own table", "patchvalidator.allowedKeyTypes*", "pkg/versions/1_0/operationparser/patchvalidator/document.go",
+		why, fmt.Sprintf("4 tables, %d reads, %d purposes", n, len(pur)), strings.Join(dedupe(bad), "; "))
+}
+
+func calleeKeyOf(r *Run, c *ssa.CallCommon) string {
+	k, _, _ := r.P.CalleeKey(c)
+	return k
 }
